@@ -9,7 +9,7 @@
    delivers ordered, nested child ranges and row numbers equal to newline counts. *)
 From Coq Require Import List NArith ZArith Bool Arith Permutation.
 From AG Require Import Base.Val Base.Sort Tree.Tree Tree.Wf Rule.Rule Rule.Traversal Rule.TraversalSpec
-  Rule.TraversalProofs Rule.Sem Rule.EvalSpec Rule.SemProofs.
+  Rule.TraversalProofs Rule.ColumnProofs Str.Utf8 Rewrite.Splice Rule.Sem Rule.EvalSpec Rule.SemProofs.
 Import ListNotations.
 
 (* pre-order: every node of the subtree exactly once, in order, nothing outside; and after any
@@ -97,3 +97,25 @@ Proof.
   unfold ids_unique. vm_compute. repeat constructor; cbn; intuition discriminate.
 Qed.
 Print Assumptions C19_ex.
+
+(* what "column" means: for a line that is the UTF-8 encoding of scalar values (1-4 bytes each, any script), the
+   column reported at its end is the NUMBER OF CHARACTERS - on the first line and after any prefix of lines *)
+Theorem C19_column_is_character_count :
+  forall pre cps post,
+    forallb scalar cps = true -> no_nl cps = true ->
+    get_char_column (encode cps ++ post) (length (encode cps)) = N.of_nat (length cps) /\
+    get_char_column (pre ++ 10%N :: encode cps ++ post) (length (pre ++ 10%N :: encode cps)) = N.of_nat (length cps) /\
+    valid_utf8 (encode cps) = true.
+Proof.
+  intros pre cps post Hs Hn. split; [apply ColumnProofs.column_counts_characters_first_line; assumption|].
+  split; [apply ColumnProofs.column_counts_characters; assumption | apply Utf8.encode_valid; exact Hs].
+Qed.
+Print Assumptions C19_column_is_character_count.
+
+(* non-vacuity: two Thai letters (U+0E2A U+0E27, three bytes each, lead byte 0xE0), an emoji and 'a' before ';' *)
+Example C19_column_ex :
+  encode [3626; 3623; 128512; 97]%N = [224;184;170; 224;184;167; 240;159;152;128; 97]%N /\
+  get_char_column (encode [3626; 3623; 128512; 97] ++ [59])%N 11 = 4%N /\
+  forallb scalar [3626; 3623; 128512; 97]%N = true.
+Proof. vm_compute. repeat split; reflexivity. Qed.
+Print Assumptions C19_column_ex.
